@@ -224,7 +224,8 @@ def viol(out, g, data, mode, summary, extra_keys=(), **rep):
     shown = data if data is None or len(data) <= 120 else data[:60] + b'...(%d bytes)...' % len(data) + data[-30:]
     out['viol'].append((keys, ('grammar %s input %r mode %s: ' % (g.text(), shown, mode)) + summary, rep))
 
-_COPYEV = re.compile(r'C-?\d+;')
+_COPYEV = re.compile(r'C-?\d+;|s\d+:\d+;')      # copy events and the call counters of stateful functors are judged separately
+_STATEEV = re.compile(r's(\d+):(\d+);')
 
 def judge_c02(spec, gs, tbs, inputs, diags, dumps, maps, tdiffs, byk, jobs, info, out):
     C = out['counts']
@@ -253,6 +254,14 @@ def judge_c02(spec, gs, tbs, inputs, diags, dumps, maps, tdiffs, byk, jobs, info
             if ex.ok:
                 C['accepted'] += 1
                 if len(ex.res.reductions) >= 3: out['distinct'].append(common.sha(g.key(), data)[:12])
+            # a functor with state of its own: within one parse its call counter goes up by one per call (the stored object is called, not a copy)
+            seq = {}
+            for rr_, n_ in _STATEEV.findall(r.events): seq.setdefault(rr_, []).append(int(n_))
+            for rr_, ns in seq.items():
+                C['stateful_functor_calls_observed'] += len(ns)
+                if any(b - a != 1 for a, b in zip(ns, ns[1:])):
+                    viol(out, g, data, mode, 'the functor object of rule %s keeps a call counter; within this parse it reported %s instead of consecutive numbers (a copy of the functor was called)' % (rr_, ns[:8]))
+                    break
             if got != want:
                 viol(out, g, data, mode, 'functor call log differs from bottom-up evaluation of the derivation tree: observed %s expected %s' % (got[:300], want[:300]), observed=got, expected=want)
             elif ex.ok and r.root != ex.root:
@@ -751,7 +760,7 @@ def judge_c13(spec, gs, tbs, inputs, diags, dumps, maps, tdiffs, byk, jobs, info
                 if (a.res, a.root, a.events, a.stream) != (b.res, b.root, b.events, b.stream):
                     viol(out, g, data, 20, 'context_parse differs from parse on a grammar that ignores the context: (%s,%s,%s) vs (%s,%s,%s)' % (b.res, b.root, b.events[:100], a.res, a.root, a.events[:100]))
                 continue
-            for mode in (20, 21, 22, 23, 24, 25, 26, 27, 28, 29, 30, 31):
+            for mode in (20, 21, 22, 23, 24, 25, 26, 27, 28, 29, 30, 31, 32, 33):
                 r = byk.get((gi, idx, mode))
                 if r is None: continue
                 ex = model.expect(g, tb, data, ctx_mode=mode)
@@ -763,13 +772,13 @@ def judge_c13(spec, gs, tbs, inputs, diags, dumps, maps, tdiffs, byk, jobs, info
                 cnt, copies, moves, momoves = (int(x) for x in m.groups()) if m else (None, None, None, None)
                 if (r.res == 1) != ex.ok: C['acceptance_disagreements_left_to_C01'] += 1; continue
                 cat = {20: 'lvalue', 21: 'const lvalue', 22: 'rvalue temporary', 23: 'move-only lvalue', 24: 'lvalue (verbose)', 25: 'lvalue, overload (ctx, buffer, stream)', 26: 'rvalue temporary, overload (ctx, buffer, stream)',
-                       27: 'lvalue, overload (ctx, buffer)', 28: 'named move-only object passed with std::move, overload (ctx, buffer, stream)', 29: 'named object passed with std::move, with options', 30: 'named move-only object passed with std::move, overload (ctx, buffer)', 31: 'lvalue of a class with an overloaded unary operator&'}[mode]
+                       27: 'lvalue, overload (ctx, buffer)', 28: 'named move-only object passed with std::move, overload (ctx, buffer, stream)', 29: 'named object passed with std::move, with options', 30: 'named move-only object passed with std::move, overload (ctx, buffer)', 31: 'lvalue of a class with an overloaded unary operator&', 32: 'scalar (long) lvalue', 33: 'pointer lvalue'}[mode]
                 if got != want:
                     viol(out, g, data, mode, '%s context: functor log %s expected %s ("=" same object, "!" other object, c/m constness, #n calls seen so far)' % (cat, got[:250], want[:250]))
                     continue
                 if copies or moves or momoves:
                     viol(out, g, data, mode, '%s context was copied %d / moved %d times by the library' % (cat, copies, moves + momoves))
-                if mode in (20, 23, 24, 25, 27, 28, 29, 30, 31) and cnt != ex.xcount:
+                if mode in (20, 23, 24, 25, 27, 28, 29, 30, 31, 32, 33) and cnt != ex.xcount:
                     viol(out, g, data, mode, '%s context: caller sees %s mutations after the call, %d contextual reductions happened' % (cat, cnt, ex.xcount))
         if len(out['samples']) < 2 and inputs[gi] and isctx:
             d = inputs[gi][len(inputs[gi]) // 2]
